@@ -202,20 +202,30 @@ MDefine(S, t) ==
 
 MStore(S, j, v) == [S EXCEPT !.nodes[j].val = v, !.nodes[j].has = TRUE, !.nodes[j].modified = TRUE]
 
-\* target.modify_value(modifier): the modifier carries value_raw (rhas, raw of shape rshape) and units_raw u
-MAssignRaw(S, j, rhas, raw, rshape, u) ==
-  LET n == S.nodes[j] IN
-  IF n.const THEN Rej(S)                                            \* checked in DIP.parse before modify_value
-  ELSE IF ~rhas THEN S                                              \* cast_value(None) falls back to the current value
-  ELSE IF n.lsl # <<>> THEN Tag(Rej(S), {"slice_multi", "host_reused"})   \* the leftover slice cuts the new value
-  ELSE IF rshape # n.shape THEN Rej(S)                              \* dimension check / dtype('[..]') raises
-  ELSE IF ~Numeric(n.dtype) THEN MStore(S, j, raw)
-  ELSE IF n.unit = "" \/ u = "" \/ u = n.unit THEN MStore(S, j, raw) \* NumberType.convert: nothing to do
-  ELSE IF n.shape # <<>> THEN Rej(S)                                \* float(array) raises in NumberType.convert
-  ELSE IF UDim(u) # UDim(n.unit) THEN Rej(S)                        \* "Unsupported conversion between units"
-  ELSE MStore(S, j, Conv(raw, u, n.unit))
+\* the slice left over in node.value_slice cuts whatever the node casts next (and loses one more axis)
+LeftCut(n, v, d) == LET res == MSlice(v, d, n.lsl) IN
+                    [ok |-> res.ok /\ ShapeD(res.v, res.d) = n.shape, v |-> res.v]
 
-MModify(S, j, val, shape, u) == MAssignRaw(S, j, TRUE, val, shape, u)
+\* target.modify_value(modifier): the modifier carries value_raw (rhas, raw with rawd axes) and units_raw u
+MAssignRaw(S, j, rhas, raw0, rawd0, u) ==
+  LET n    == S.nodes[j]
+      \* cast_value(None) falls back to the target's own current value, which is then read in the modifier's unit
+      raw  == IF rhas THEN raw0 ELSE n.val
+      rawd == IF rhas THEN rawd0 ELSE VDepth(n.dtype, n.shape)
+      cut  == IF n.lsl # <<>> THEN LeftCut(n, raw, rawd) ELSE [ok |-> TRUE, v |-> raw]
+      S1   == IF n.lsl # <<>> THEN Tag([S EXCEPT !.nodes[j].lsl = Tail(@)], {"slice_multi", "host_reused"}) ELSE S
+  IN
+  IF n.const THEN Rej(S)                                            \* checked in DIP.parse before modify_value
+  ELSE IF ~rhas /\ ~n.has THEN Rej(S)                               \* None.copy()
+  ELSE IF ~cut.ok THEN Rej(S1)                                      \* IndexError / dimension check after the leftover slice
+  ELSE IF n.lsl = <<>> /\ RawShape(n.dtype, raw, rawd) # n.shape THEN Rej(S)   \* dimension check / dtype('[..]') raises
+  ELSE IF ~Numeric(n.dtype) THEN MStore(S1, j, cut.v)
+  ELSE IF n.unit = "" \/ u = "" \/ u = n.unit THEN MStore(S1, j, cut.v)  \* NumberType.convert: nothing to do
+  ELSE IF n.shape # <<>> THEN Rej(S1)                               \* float(array) raises in NumberType.convert
+  ELSE IF UDim(u) # UDim(n.unit) THEN Rej(S1)                       \* "Unsupported conversion between units"
+  ELSE MStore(S1, j, Conv(cut.v, u, n.unit))
+
+MModify(S, j, val, dtype, shape, u) == MAssignRaw(S, j, TRUE, val, VDepth(dtype, shape), u)
 
 \* Environment.request: routing, then NodeList.query (copies, names re-rooted) -> [ok, sel]
 MRequest(S, snap, md, src, qk, q) ==
@@ -255,11 +265,11 @@ MInject(S, snap, md, ln) ==
                                                       ResVal(r.dtype, r.rawd, res), u, FALSE, FALSE,
                                                       TRUE, r.raw, r.rawd, ref, lsl, ln.sl # <<>>))]
   ELSE \* a modification `host = {ref}[slice] unit`
-       IF ~r.rhas THEN S1                                            \* set_value() skipped; cast_value(None) keeps the value
+       IF ~r.rhas THEN MAssignRaw(S1, Find(S1.nodes, ln.host), FALSE, 0, 0, u)  \* set_value() skipped on the mod node
        ELSE IF ln.sl # <<>> THEN Tag(Rej(S1), {"slice", "host_is_modification"})
             \* the mod node casts its own slice with dtype str and raises unless one element is left; the target
             \* then casts the WHOLE raw text (its own value_slice, not the modifier's, is looked at)
-       ELSE MAssignRaw(S1, Find(S1.nodes, ln.host), TRUE, r.raw, RawShape(r.dtype, r.raw, r.rawd), u)
+       ELSE MAssignRaw(S1, Find(S1.nodes, ln.host), TRUE, r.raw, r.rawd, u)
 
 \* ImportNode.parse, then each re-queued copy goes through the loop of DIP.parse
 RECURSIVE MImpFold(_, _, _, _, _)
@@ -273,12 +283,15 @@ MImpFold(S, snap, md, sel, host) ==
       j  == Find(S.nodes, p)
   IN
   IF ~rq.ok \/ Len(rq.sel) # 1 THEN Tag(Rej(S), {"node_defined_by_injection"})
-  ELSE IF c.lsl # <<>> /\ c.rhas THEN Tag(Rej(S), {"slice_multi", "host_reused"})  \* set_value() -> cast_value() slices again
+  ELSE IF c.lsl # <<>> /\ c.rhas /\ ~LeftCut(c, c.val, VDepth(c.dtype, c.shape)).ok
+       THEN Tag(Rej(S), {"slice_multi", "host_reused"})             \* set_value() -> cast_value() slices the value again
   ELSE IF j # 0
        THEN IF c.dtype # S.nodes[j].dtype THEN Rej(S)
-            ELSE MImpFold(Tag(MAssignRaw(S, j, c.rhas, c.raw, RawShape(c.dtype, c.raw, c.rawd), c.unit), {"target_exists"}),
+            ELSE MImpFold(Tag(MAssignRaw(S, j, c.rhas, c.raw, c.rawd, c.unit), {"target_exists"}),
                           snap, md, Tail(sel), host)
-       ELSE LET c1 == IF c.rhas THEN [c EXCEPT !.path = p]          \* set_value(): cast_value() of the CURRENT value
+       ELSE LET c1 == IF c.rhas THEN [c EXCEPT !.path = p,              \* set_value(): cast_value() of the CURRENT value
+                                                 !.val = IF c.lsl # <<>> THEN LeftCut(c, c.val, VDepth(c.dtype, c.shape)).v ELSE c.val,
+                                                 !.lsl = IF c.lsl # <<>> THEN Tail(c.lsl) ELSE <<>>]
                       ELSE [c EXCEPT !.path = p, !.has = FALSE]      \* value_raw None -> value None
                 S1 == IF ~c.rhas /\ c.has THEN Tag(S, {"source_declared"}) ELSE S
             IN MImpFold([S1 EXCEPT !.nodes = Append(@, c1)], snap, md, Tail(sel), host)
@@ -299,3 +312,156 @@ MFinal(S) ==
   ELSE IF \E j \in 1..Len(S.nodes) : ~S.nodes[j].has /\ S.nodes[j].decl THEN Rej(S)
   ELSE IF \E j \in 1..Len(S.nodes) : ~S.nodes[j].has THEN [S EXCEPT !.st = "unreadable"]
   ELSE S
+
+-----------------------------------------------------------------------------
+(*                         PROGRAM GENERATOR                               *)
+Paths(nodes) == {nodes[j].path : j \in 1..Len(nodes)}
+SeqSet(s) == {s[j] : j \in 1..Len(s)}
+MApply(S, R) == IF S.st # "ok" THEN S ELSE R
+Line(ln) == prog' = Append(prog, ln)
+
+Init == /\ prog = <<>> /\ mode = "local" /\ iS = S0 /\ mS = S0 /\ iSnap = <<>> /\ mSnap = <<>>
+        /\ cnt = [def |-> 0, mod |-> 0, ref |-> 0, late |-> 0, sw |-> 0, fresh |-> {}] /\ lastT = 0
+
+Going == iS.st = "ok"
+
+\* tree: templates in menu order, distinct paths
+Define(i) ==
+  /\ Going /\ cnt.sw = 0 /\ cnt.mod = 0 /\ cnt.ref = 0 /\ cnt.def < MaxDef /\ i > lastT
+  /\ Templates[i].path \notin Paths(iS.nodes)
+  /\ iS' = IDefine(iS, Templates[i]) /\ mS' = MApply(mS, MDefine(mS, Templates[i]))
+  /\ Line([k |-> "def", t |-> Templates[i]])
+  /\ cnt' = [cnt EXCEPT !.def = @ + 1] /\ lastT' = i
+  /\ UNCHANGED <<mode, iSnap, mSnap>>
+
+\* modification of node j by literal m: before any reference, or (late) after one
+Modify(j, m) ==
+  /\ Going /\ j \in 1..Len(iS.nodes)
+  /\ LET n == iS.nodes[j]  lit == ModMenu[m] IN
+     /\ lit.dtype = n.dtype /\ lit.shape = n.shape
+     /\ ~(n.unit = "" /\ lit.unit # "")                            \* a unit for a unitless node: not decided here
+     /\ \/ cnt.ref = 0 /\ cnt.mod < MaxMod /\ cnt' = [cnt EXCEPT !.mod = @ + 1]
+        \/ cnt.ref >= 1 /\ cnt.late < MaxLate /\ cnt' = [cnt EXCEPT !.late = @ + 1, !.fresh = @ \cup {n.path}]
+     /\ iS' = IAssign(iS, j, lit.val, lit.shape, lit.unit)
+     /\ mS' = MApply(mS, IF Find(mS.nodes, n.path) = 0 THEN Rej(mS)       \* "Modifying undefined node"
+                         ELSE MModify(mS, Find(mS.nodes, n.path), lit.val, lit.dtype, lit.shape, lit.unit))
+     /\ Line([k |-> "mod", path |-> n.path, dtype |-> lit.dtype, shape |-> lit.shape, val |-> lit.val, unit |-> lit.unit])
+  /\ UNCHANGED <<mode, iSnap, mSnap, lastT>>
+
+\* the text so far becomes the base environment of a second parse, or the file of the remote source s1
+Switch(md) ==
+  /\ Going /\ cnt.sw = 0 /\ cnt.def >= 1 /\ cnt.late = 0 /\ cnt.ref < MaxRef
+  /\ IFinal(iS).st = "ok"
+  /\ mode' = md /\ cnt' = [cnt EXCEPT !.sw = 1]
+  /\ iSnap' = iS.nodes /\ iS' = IF md = "remote" THEN [iS EXCEPT !.nodes = <<>>] ELSE iS
+  /\ LET mf == MFinal(mS) IN                                       \* the first parse ends here
+     /\ mSnap' = mf.nodes
+     /\ mS' = IF mf.st # "ok" THEN Rej(mf)                         \* no base environment / $source fails
+              ELSE IF md = "remote" THEN [mf EXCEPT !.nodes = <<>>] ELSE mf
+  /\ Line([k |-> "switch", mode |-> md])
+  /\ UNCHANGED lastT
+
+Srcs == IF mode = "remote" THEN {"s1", ""} ELSE {""}
+Pool(src) == IPool(iS, iSnap, mode, src)
+Prefixes(p) == {SubSeq(p, 1, k) : k \in 1..(Len(p) - 1)}
+Queries(src) ==
+  LET ps == Paths(Pool(src)) IN
+       {[qk |-> "node", q |-> p] : p \in ps \cup {<<"zz">>}}
+  \cup {[qk |-> "children", q |-> p] : p \in (UNION {Prefixes(x) : x \in ps}) \cup {<<"zz">>}}
+  \cup {[qk |-> "all", q |-> <<>>]}
+
+\* a second reference must touch something the first one (or a late modification) produced
+Narrow(src, qy) ==
+  cnt.ref = 0 \/ (src = "" /\ \E x \in SeqSet(Select(Pool(src), qy.qk, qy.q)) : x.nd.path \in cnt.fresh)
+
+RefStep(iS1, mS1, ln) ==
+  /\ iS' = iS1 /\ mS' = mS1 /\ Line(ln)
+  /\ cnt' = [cnt EXCEPT !.ref = @ + 1, !.fresh = @ \cup (Paths(iS1.nodes) \ Paths(iS.nodes))
+                                                   \cup (IF ln.k = "inj" /\ ln.form = "mod" THEN {ln.host} ELSE {})]
+  /\ UNCHANGED <<mode, iSnap, mSnap, lastT>>
+
+SliceKey(n) == IF n.dtype = "str" THEN "str" ELSE "num"
+SlicesFor(n) == {<<>>} \cup {SliceMenu[k].sl : k \in {x \in 1..Len(SliceMenu) :
+                               SliceMenu[x].key = SliceKey(n) /\ SliceMenu[x].shape = n.shape}}
+FreshHost == LET free == {k \in 1..Len(InjHosts) : InjHosts[k] \notin Paths(iS.nodes)} IN
+             IF free = {} THEN <<"zzhost">> ELSE InjHosts[CHOOSE k \in free : \A x \in free : k <= x]
+HostDtypes(dt) == IF dt = "int" THEN {"int", "float"} ELSE {dt}
+UnitsFor(dt) == IF Numeric(dt) THEN {""} \cup HostUnits ELSE {""}
+
+InjLine(form, host, dtype, shape, src, qy, sl, u) ==
+  [k |-> "inj", form |-> form, host |-> host, dtype |-> dtype, shape |-> shape, src |-> src,
+   qk |-> qy.qk, q |-> qy.q, sl |-> sl, unit |-> u]
+
+Inject ==
+  /\ Going /\ cnt.ref < MaxRef
+  /\ \E src \in Srcs : \E qy \in Queries(src) :
+     /\ Narrow(src, qy)
+     /\ LET sel == Select(Pool(src), qy.qk, qy.q) IN
+        IF Len(sel) # 1 \/ ~sel[1].nd.has
+        THEN \* a request that selects none / several / a node without value: one plain host line
+             LET ln == InjLine("def", FreshHost, "float", <<>>, src, qy, <<>>, "") IN
+             RefStep(IInject(iS, iSnap, mode, ln), MApply(mS, MInject(mS, mSnap, mode, ln)), ln)
+        ELSE LET r == sel[1].nd IN
+             \E sl \in SlicesFor(r) :
+             LET res == ISlice(r.val, VDepth(r.dtype, r.shape), sl)
+                 shp == ResShape(r.dtype, res) IN
+             /\ res.ok
+             /\ \/ \E dt \in HostDtypes(r.dtype) : \E u \in UnitsFor(dt) :          \* an injecting definition
+                   LET ln == InjLine("def", FreshHost, dt, shp, src, qy, sl, u) IN
+                   RefStep(IInject(iS, iSnap, mode, ln), MApply(mS, MInject(mS, mSnap, mode, ln)), ln)
+                \/ \E j \in 1..Len(iS.nodes) : \E u \in UnitsFor(r.dtype) :           \* an injecting modification
+                   LET h == iS.nodes[j]
+                       ln == InjLine("mod", h.path, h.dtype, h.shape, src, qy, sl, u) IN
+                   /\ h.dtype \in HostDtypes(r.dtype) /\ h.shape = shp
+                   /\ ~(h.unit = "" /\ (IF u # "" THEN u ELSE r.unit) # "")           \* a unit for a unitless node
+                   /\ RefStep(IInject(iS, iSnap, mode, ln),
+                              MApply(mS, IF Find(mS.nodes, h.path) = 0 THEN Rej(mS) ELSE MInject(mS, mSnap, mode, ln)), ln)
+
+Import ==
+  /\ Going /\ cnt.ref < MaxRef
+  /\ \E src \in Srcs : \E qy \in Queries(src) : \E hk \in 1..Len(ImpHosts) :
+     /\ Narrow(src, qy)
+     /\ LET ln == [k |-> "imp", host |-> ImpHosts[hk].host, form |-> ImpHosts[hk].form, src |-> src,
+                   qk |-> qy.qk, q |-> qy.q] IN
+        RefStep(IImport(iS, iSnap, mode, ln), MApply(mS, MImport(mS, mSnap, mode, ln)), ln)
+
+Next == \/ \E i \in 1..Len(Templates) : Define(i)
+        \/ \E j \in 1..MaxDef + 8 : \E m \in 1..Len(ModMenu) : Modify(j, m)
+        \/ \E md \in Modes : Switch(md)
+        \/ Inject \/ Import
+
+Spec == Init /\ [][Next]_vars
+
+-----------------------------------------------------------------------------
+(*                      OBSERVATIONS, INVARIANTS, RECORDS                  *)
+Data(nodes) == [j \in 1..Len(nodes) |->
+                 [path |-> nodes[j].path, dtype |-> nodes[j].dtype, shape |-> nodes[j].shape, has |-> nodes[j].has,
+                  val |-> IF nodes[j].has THEN nodes[j].val ELSE 0, unit |-> nodes[j].unit, const |-> nodes[j].const]]
+
+IEnd == IFinal(iS)
+MEnd == MFinal(mS)
+\* the base environment as the machine leaves it: the second parse worked on a copy - or on the object itself
+MBaseNow == IF CopyOnParse THEN mSnap ELSE MEnd.nodes
+
+Obs(S) == IF S.st = "ok" THEN ToString(<<"ok", Data(S.nodes)>>) ELSE S.st
+Agree == Obs(IEnd) = Obs(MEnd) \/ (IEnd.mayrej /\ MEnd.st = "rej")
+
+\* C17, last sentence: parsing on top of an environment (or importing from a remote source) leaves it unchanged
+BaseUnchanged == (mode = "base" /\ mS.st = "ok") => ToString(Data(MBaseNow)) = ToString(Data(mSnap))
+\* every disagreement of the transcription with the ideal is one of the named deviations
+Explained == (~Agree /\ ~IEnd.unspec) => MEnd.tags # {}
+
+Kinds == {prog[j].k : j \in 1..Len(prog)} \ {"def", "mod", "switch"}
+Complete == Len(prog) > 0 /\ prog[Len(prog)].k # "switch"
+            /\ (cnt.ref >= 1 \/ (mode = "base" /\ prog[Len(prog)].k = "mod"))
+
+Record == [mode |-> mode, prog |-> prog,
+           ideal |-> [st |-> IEnd.st, data |-> IF IEnd.st = "ok" THEN Data(IEnd.nodes) ELSE <<>>,
+                      mayrej |-> IEnd.mayrej, unspec |-> IEnd.unspec],
+           mach |-> [st |-> MEnd.st, data |-> IF MEnd.st = "ok" THEN Data(MEnd.nodes) ELSE <<>>],
+           agree |-> Agree,
+           snap |-> Data(iSnap),                                  \* base environment / remote source, before = after
+           tags |-> MEnd.tags \cup {IF x = "inj" THEN "inject" ELSE "import" : x \in Kinds} \cup {mode}]
+
+EmitInv == (Emit /\ Complete) => PrintT(ToJson(Record))
+=============================================================================
